@@ -169,7 +169,7 @@ fn check_case(sb: &Sandbox, opts: &Opts, idx: usize, orders: usize, forced: Opti
 }
 
 pub fn run(opts: &Opts) -> i32 {
-    let n = opts.n(450, 18000);
+    let n = opts.n(3000, 30000);
     let orders = if opts.tier == Tier::Quick { 4 } else { 12 };
     let mut ev = Evidence::new(
         PROP,
